@@ -84,7 +84,7 @@ StepQuery ==
 StepDet ==
   /\ Ev.ev = "Det"
   /\ IF Has(memo, Ev.key) /\ memo[Ev.key] # Ev.dg
-     THEN /\ bad' = bad \cup {[l |-> l, prop |-> "C03", what |-> "different result for equal inputs: " \o Ev.key, n |-> 1, first |-> 0]}
+     THEN /\ bad' = bad \cup {[l |-> l, prop |-> IF Has(Ev, "prop") THEN Ev.prop ELSE "C03", what |-> "different result for equal inputs: " \o Ev.key, n |-> 1, first |-> 0]}
           /\ UNCHANGED svars
      ELSE Det(Ev.key, Ev.dg) /\ UNCHANGED bad
 
@@ -104,6 +104,13 @@ StepShift ==
        \cup NonEmpty({Viol("C18", "position in " \o Ev.k \o " result not moved by the inserted lines/bytes", BadMoves(Ev))})
   /\ UNCHANGED svars
 
+\* A data race (reported by the race detector of the instrumented build) or a transient write to shared state
+\* is an implementation event no action of Session / Concurrent allows.
+StepRace ==
+  /\ Ev.ev = "Race"
+  /\ bad' = bad \cup {[l |-> l, prop |-> "C05", what |-> Ev.kind \o ": " \o Ev.site, n |-> 1, first |-> 0]}
+  /\ UNCHANGED svars
+
 Finish ==
   /\ l = Len(Trace) + 1
   /\ JsonSerialize(IOEnv.VOUT, [consumed |-> l - 1, bad |-> bad])
@@ -113,7 +120,7 @@ Finish ==
 TNext ==
   \/ /\ l <= Len(Trace)
      /\ l' = l + 1
-     /\ (StepInit \/ StepLoad \/ StepCollect \/ StepQuery \/ StepDet \/ StepInsert \/ StepShift)
+     /\ (StepInit \/ StepLoad \/ StepCollect \/ StepQuery \/ StepDet \/ StepInsert \/ StepShift \/ StepRace)
   \/ Finish
 
 TSpec == TInit /\ [][TNext]_tvars
